@@ -222,6 +222,11 @@ func C03(c *run.Ctx) {
 				c.Exhaustive = false
 				continue
 			}
+			if !c.Quick() && len(seq) == maxLen && (qi+si)%3 != 0 {
+				// thorough: every sequence up to length 3 for every setup, a third of the length-4 sequences (rotating with the setup)
+				c.Exhaustive = false
+				continue
+			}
 			idx++
 			// authorization under the loose configuration
 			w.Cfg.EnforcePKCE = su.Enforce == 2
